@@ -37,6 +37,8 @@ pub struct Case {
     /// where tag x sits: 0 none, 1 scenario, 2 rule, 3 feature
     pub x_at: usize,
     pub y_on_scenario: bool,
+    /// a look-alike tag (`retryable`) written before the genuine retry tag of each level
+    pub decoy_first: bool,
 }
 
 pub fn cases() -> Vec<Case> {
@@ -59,17 +61,27 @@ pub fn cases() -> Vec<Case> {
                                         if filter == 0 && (x_at != 0 || y) {
                                             continue;
                                         }
-                                        v.push(Case {
-                                            sc,
-                                            rule,
-                                            feat,
-                                            with_rule,
-                                            cli_retry,
-                                            cli_after,
-                                            filter,
-                                            x_at,
-                                            y_on_scenario: y,
-                                        });
+                                        for decoy_first in [false, true] {
+                                            // (only where some level carries a genuine retry tag)
+                                            let genuine = |k: usize| (1..=6).contains(&k);
+                                            if decoy_first
+                                                && (!(genuine(sc) || genuine(rule) || genuine(feat)) || filter != 0)
+                                            {
+                                                continue;
+                                            }
+                                            v.push(Case {
+                                                sc,
+                                                rule,
+                                                feat,
+                                                with_rule,
+                                                cli_retry,
+                                                cli_after,
+                                                filter,
+                                                x_at,
+                                                y_on_scenario: y,
+                                                decoy_first,
+                                            });
+                                        }
                                     }
                                 }
                             }
@@ -82,12 +94,15 @@ pub fn cases() -> Vec<Case> {
     v
 }
 
-fn tags(retry: usize, x: bool, y: bool) -> Vec<String> {
+fn tags(retry: usize, x: bool, y: bool, decoy_first: bool) -> Vec<String> {
     let mut t = Vec::new();
     if x {
         t.push("x".to_owned());
     }
     if let Some(r) = RETRY_TAGS[retry] {
+        if decoy_first && (1..=6).contains(&retry) {
+            t.push("retryable".to_owned());
+        }
         t.push(r.to_owned());
     }
     if y {
@@ -97,9 +112,9 @@ fn tags(retry: usize, x: bool, y: bool) -> Vec<String> {
 }
 
 pub fn check(c: &Case) -> Option<String> {
-    let sc_tags = tags(c.sc, c.x_at == 1, c.y_on_scenario);
-    let rule_tags = tags(c.rule, c.x_at == 2, false);
-    let feat_tags = tags(c.feat, c.x_at == 3, false);
+    let sc_tags = tags(c.sc, c.x_at == 1, c.y_on_scenario, c.decoy_first);
+    let rule_tags = tags(c.rule, c.x_at == 2, false, c.decoy_first);
+    let feat_tags = tags(c.feat, c.x_at == 3, false, c.decoy_first);
     let s = ScenSpec { tags: sc_tags.clone(), steps: vec![StepKind::Matched] };
     let spec = if c.with_rule {
         FeatSpec {
@@ -217,7 +232,7 @@ pub fn run(a: &ShardArgs) -> serde_json::Value {
         "property": "C18", "tier": a.tier,
         "total_configs": cs.len() + e2e.len(), "configs_done": evaluations, "configs_skipped_budget": 0,
         "evaluations": evaluations, "distinct_nontrivial": nontrivial,
-        "rule": "complete product: retry tag in {none,@retry,@retry(3),@retry.after(2s),@retry(3).after(2s),@retry(10),@retry(0).after(0s),@retryable (an ordinary tag)} on scenario x rule x feature (with and without a rule) x --retry {none,5,0} x --retry-after {none,7s} x --retry-tag-filter {none,@x,not @x,@x and @y} x placement of x (none/scenario/rule/feature) and y; plus, end to end under the gate executor, 1500 (thorough: 30 000, with the tags inherited from the feature of a scenario in a rule, all filter x hook combinations) configurations with differing builder / CLI retries, delays, filters, limits and fail-fast flags (family `resolve`): budget on the first event, delay, limit and fail-fast behaviour must be what the precedence resolves to; non-trivial = at least two sources compete",
+        "rule": "complete product: retry tag in {none,@retry,@retry(3),@retry.after(2s),@retry(3).after(2s),@retry(10),@retry(0).after(0s),@retryable (an ordinary tag)}, optionally with the look-alike tag written before the genuine one, on scenario x rule x feature (with and without a rule) x --retry {none,5,0} x --retry-after {none,7s} x --retry-tag-filter {none,@x,not @x,@x and @y} x placement of x (none/scenario/rule/feature) and y; plus, end to end under the gate executor, 1500 (thorough: 30 000, with the tags inherited from the feature of a scenario in a rule, all filter x hook combinations) configurations with differing builder / CLI retries, delays, filters, limits and fail-fast flags (family `resolve`): budget on the first event, delay, limit and fail-fast behaviour must be what the precedence resolves to; non-trivial = at least two sources compete",
         "exhaustive": true,
         "violations": violations, "samples": samples,
     })
